@@ -141,7 +141,7 @@ func runC15a(c *Ctx) {
 	szIdx := g.Intn(3)
 	sz := []serialize.Serialization{serialize.JSON, serialize.MSGPACK, serialize.CBOR}[szIdx]
 	ser, _ := serializerOf(sz)
-	cliLimExp := byte(g.Pick("\x00", "\x00", "\x01", "\x03", "\x0f")[0]) // announced client receive limit 2^(9+x)
+	cliLimExp := byte(g.Pick("\x00", "\x00", "\x01", "\x03", "\x08", "\x08", "\x0f")[0]) // announced client receive limit 2^(9+x); 8: 128 KiB, frames of more than 64 KiB fit
 	cliLimit := 1 << (9 + int(cliLimExp))
 	srvRecvLimit := []int{0, 512, 600, 1024, 3000, 4096, 5000}[g.Intn(7)] // also limits that are not a power of two: the announced one is the next power
 	srvLimit := 1 << 24
@@ -206,8 +206,11 @@ func runC15a(c *Ctx) {
 		case 5:
 			// around the limit the actor announced
 			st.size = []int{10, cliLimit - 200, cliLimit - 60, cliLimit - 20, cliLimit, cliLimit + 50}[g.Intn(6)]
-			if st.size < 1 || st.size > 70000 {
-				st.size = 100
+			if st.size < 1 || st.size > 140000 {
+				st.size = []int{100, 70000, 100000}[g.Intn(3)] // (also frames that take several writes of the transport's)
+			}
+			if st.size > 20000 && ((faults.MaxFrag > 0 && faults.MaxFrag < 64) || (faults.Window > 0 && faults.Window < 600)) {
+				st.size = 100 // (byte-wise reads of a 100 KB frame would only burn scheduling steps)
 			}
 		case 0:
 			pow2 := 512
